@@ -8,7 +8,7 @@ REPO = os.environ.get("QE_REPO", "/repo")
 COQ = os.path.join(VERIF, "coq")
 HARNESS = os.path.join(VERIF, "harness")
 WORK = os.path.join(VERIF, ".work")
-BIN = os.path.join(HARNESS, "target", "debug", "qe_verif_harness")
+
 
 STD_AXIOM_ALLOW = {
     # axioms declared by the standard library / Flocq's Reals; allowed when named in the trusted base
@@ -105,6 +105,19 @@ def coq_project_files():
     return out
 
 
+def write_coq_project():
+    """_CoqProject is generated from the tree: every .v under coq/theories (coqdep orders them)."""
+    files = []
+    for root, _, fs in os.walk(os.path.join(COQ, "theories")):
+        for f in fs:
+            if f.endswith(".v") and not f.startswith("."):
+                files.append(os.path.relpath(os.path.join(root, f), COQ))
+    txt = "-Q theories QV\n" + "\n".join(sorted(files)) + "\n"
+    p = os.path.join(COQ, "_CoqProject")
+    if not os.path.exists(p) or open(p).read() != txt:
+        open(p, "w").write(txt)
+
+
 def run_gen():
     """Regenerate coq/theories/Gen/*.v from /repo's current source (translator)."""
     tool = os.path.join(VERIF, "tools", "rs2v.py")
@@ -117,6 +130,7 @@ def run_gen():
 def coq_make(targets, timeout=1500):
     with Lock("coq"):
         gen_ok, gen_log = run_gen()
+        write_coq_project()
         rc, o, e = sh("coq_makefile -f _CoqProject -o Makefile.coq", cwd=COQ, timeout=120)
         if rc != 0:
             return False, o + e
@@ -197,14 +211,13 @@ def coq_props(pid, allow=()):
     return res
 
 
-_harness_built = False
+_harness_built = set()
 
 
-def build_harness():
-    """(Re)build the harness against /repo's current working tree. cargo tracks the path
-    dependency's sources itself, so an unchanged tree is a ~1 s no-op."""
-    global _harness_built
-    if _harness_built:
+def build_harness(module):
+    """(Re)build harness binary `module` against /repo's current working tree. cargo tracks the
+    path dependency's sources itself, so an unchanged tree is a ~1 s no-op."""
+    if module in _harness_built:
         return True, ""
     with Lock("cargo"):
         lock_src = os.path.join(REPO, "Cargo.lock")
@@ -212,20 +225,27 @@ def build_harness():
         if open(lock_src).read() != (open(lock_dst).read() if os.path.exists(lock_dst) else ""):
             open(lock_dst, "w").write(open(lock_src).read())
         env = dict(os.environ, CARGO_NET_OFFLINE="true")
-        rc, o, e = sh(["cargo", "build", "--offline", "--quiet"], cwd=HARNESS, timeout=3000, env=env)
-    _harness_built = rc == 0
-    return rc == 0, (o + e)[-4000:]
+        rc, o, e = sh(["cargo", "build", "--offline", "--quiet", "--bin", module], cwd=HARNESS, timeout=3000, env=env)
+    if rc == 0:
+        _harness_built.add(module)
+    errs = "\n".join(l for l in (o + e).split("\n") if "warning" not in l)
+    return rc == 0, errs[-4000:]
+
+
+def harness_bin(module):
+    return os.path.join(HARNESS, "target", "debug", module)
 
 
 def run_harness(module, cases, timeout=1800, env=None, args=()):
-    ok, log = build_harness()
+    """Run harness binary `module` (harness/src/bin/<module>.rs) on JSON cases; one output per case."""
+    ok, log = build_harness(module)
     if not ok:
         raise HarnessBuildError(log)
     inp = "\n".join(json.dumps(c) for c in cases) + "\n"
     e2 = dict(os.environ)
     if env:
         e2.update(env)
-    p = subprocess.run([BIN, module] + list(args), input=inp, capture_output=True, text=True, timeout=timeout, env=e2)
+    p = subprocess.run([harness_bin(module)] + list(args), input=inp, capture_output=True, text=True, timeout=timeout, env=e2)
     outs = []
     for l in p.stdout.split("\n"):
         if l.strip():
